@@ -1456,6 +1456,21 @@ impl RaftNode {
             .filter_map(|bytes| bitcode::deserialize(bytes).ok())
             .collect();
 
+        // After a snapshot from a leader with a compacted log was installed, the log no longer
+        // starts at index 1 and older records end below its first index. Keep the run of
+        // consecutive indices that ends the recovered log; what precedes it is compacted.
+        let mut recovered_log = recovered_log;
+        let mut start = 0;
+        for i in 1..recovered_log.len() {
+            if recovered_log[i].index != recovered_log[i - 1].index + 1 {
+                start = i;
+            }
+        }
+        let recovered_log = recovered_log.split_off(start);
+        let base = recovered_log
+            .first()
+            .map_or(0, |e| e.index.saturating_sub(1));
+
         let mut node = Self::with_state(
             node_id,
             peers,
@@ -1465,6 +1480,7 @@ impl RaftNode {
             recovery.voted_for,
             recovered_log,
         );
+        node.persistent.get_mut().log_base_index = base;
 
         node.wal = Some(Arc::new(Mutex::new(wal)));
 
